@@ -339,3 +339,145 @@ def replay_echo_variant(age=4.0):
     finally:
         w.close()
     return out
+
+
+# ------------------------------------------------------------------ priorities follow the CURRENT path (engine level)
+
+CLASSES = {"urgent": -1, "slow": 2, "normal": 0, "later": 1}
+
+
+def app_prioritize(root_len):
+    """the application's prioritize: keyed on the top-level folder below the sync root and on the name suffix"""
+    def prio(side, path):
+        if not path:
+            return 0
+        if path.endswith(".tmp"):
+            return 3
+        parts = path.split("/")
+        # parts = ["", "local"|"remote", top, ...]
+        return CLASSES.get(parts[2], 0) if len(parts) > 2 else 0
+    return prio
+
+
+def gen_prio_case(rng, flavour):
+    tops = rng.sample(sorted(CLASSES), 2)
+    nkids = rng.randint(1, 4)
+    names = ["K%d%s" % (i, rng.choice(["", "", ".tmp"])) for i in range(nkids)]
+    return {"flavour": flavour, "from": tops[0], "to": tops[1], "nested": rng.random() < 0.5, "kids": names,
+            "age": rng.choice([4.0, 20.0, 100.0]), "edit": rng.sample(names, rng.randint(1, len(names))), "rounds": 30}
+
+
+def run_prio_case(case):
+    """a folder with descendants is moved across priority classes and synced; then descendants (and a control file) are modified
+    at their new paths under ageing > 0; every SyncManager.do is observed and judged by the Lean monitor (obs + obscls)"""
+    import engine as E
+    import_repo()
+    prio = app_prioritize(0)
+    w = E.World(case["flavour"], storage=None, aging=0.002, prioritize=prio)
+    try:
+        for side, root in enumerate(w.roots):
+            if not w.provs[side].info_path(root):
+                w.user(side, "mkdir", root)
+        a, b = "/local/" + case["from"], "/local/" + case["to"]
+        w.user(0, "mkdir", a)
+        w.user(0, "mkdir", b)
+        w.user(0, "mkdir", a + "/D")
+        sub = a + "/D/E" if case["nested"] else a + "/D"
+        if case["nested"]:
+            w.user(0, "mkdir", sub)
+        for nm in case["kids"]:
+            w.user(0, "create", sub + "/" + nm, b"v1")
+        w.user(0, "create", b + "/N", b"v1")
+        if w.run_to_quiet(cap=600) is None:
+            raise HarnessError("priority family: setup did not settle (%s)" % (case,))
+        w.user(0, "rename", a + "/D", b + "/D")
+        if w.run_to_quiet(cap=600) is None:
+            raise HarnessError("priority family: move did not settle (%s)" % (case,))
+        newsub = b + "/D/E" if case["nested"] else b + "/D"
+        st = w.cs.state
+        w.cs.aging = case["age"]
+        ids, names = {}, {}
+
+        def eid(e):
+            k = ids.setdefault(id(e), len(ids))
+            names[k] = e[0].path or e[1].path or ""
+            return k
+
+        def snap():
+            return [(eid(e), e.priority, e[0].changed or None, e[1].changed or None,
+                     min([prio(s_, e[s_].path) for s_ in (0, 1) if e[s_].path] or [0])) for e in st._changeset_storage]
+        cur = {}
+        orig_change = st.change
+
+        def change(age_):
+            cur["earlier"] = w.clock.now - age_
+            r = orig_change(age_)
+            cur["before"] = snap()
+            cur["a"] = None if r is None else eid(r)
+            return r
+        st.change = change
+        for nm in case["edit"]:
+            w.user(0, "write", newsub + "/" + nm, b"v2-edited")
+        w.user(0, "write", b + "/N", b"v2-edited")
+        lines, trace = ["obsreset"], []
+        dt = case["age"] / 10.0
+        for _k in range(case["rounds"]):
+            w.step("L", dt / 4)
+            w.step("R", dt / 4)
+            cur.clear()
+            r = w.step("S", dt / 2)
+            if "before" not in cur:
+                continue
+            after = snap()
+            lines.append("obs %s %s %s | %s | %s" % (fr(cur["earlier"]), "~" if cur["a"] is None else cur["a"], enc_bool(bool(r)),
+                                                     rows([x[:4] + (None,) for x in cur["before"]]), rows([x[:4] + (None,) for x in after])))
+            lines.append("obscls " + " ; ".join("%d %s" % (x[0], fr(x[4])) for x in cur["before"]))
+            trace.append({"t": w.clock.now, "now_minus_age": cur["earlier"], "attempted": None if cur["a"] is None else names.get(cur["a"]),
+                          "pending": [(names.get(x[0]), "priority=%s" % x[1], "changed=%s/%s" % (x[2], x[3]), "class=%s" % x[4])
+                                      for x in cur["before"]]})
+        return lines, trace
+    finally:
+        w.close()
+
+
+def judge_prio(case, lines, trace, out):
+    k = -1
+    for ln, o in zip(lines, out):
+        if ln.startswith("obs "):
+            k += 1
+            if o.startswith("bad") and "pick" in o:
+                return {"statement": "loop monitor: the entry attempted is not the one the selection law gives", "iteration": k,
+                        "monitor": o, "observation": trace[k]}
+        elif ln.startswith("obscls") and o.startswith("bad"):
+            what = {"stale": "PriorityCurrent: a pending entry's stored priority is not the application's prioritize() of its current path "
+                             "(plus punts): a path change — its own or its folder's — did not re-prioritise it",
+                    "unaged": "nonneg_class_ages: the entry attempted has every current path in a non-negative class of the application's "
+                              "prioritize(), yet no change of it was notified at least `age` ago — it is propagated before it has aged "
+                              "(its stored priority is stale)",
+                    "classorder": "class_order: an eligible entry of a strictly lower class was passed over"}
+            return {"statement": "; ".join(what.get(t, t) for t in o.split()[1:]), "iteration": k, "monitor": o, "observation": trace[k]}
+    return None
+
+
+def prio_family(rng, tier):
+    cases = []
+    for _ in range(3 if tier == "quick" else 20):
+        for flavour in ("oid-oid", "path-path", "oid-path"):
+            cases.append(gen_prio_case(rng, flavour))
+    return cases
+
+
+def run_prio_family(cases):
+    all_lines, meta = [], []
+    for case in cases:
+        lines, trace = run_prio_case(case)
+        meta.append((case, len(all_lines), len(lines), trace))
+        all_lines += lines
+    out = run_driver("sched", all_lines)
+    fails, nobs = [], 0
+    for case, a, n, trace in meta:
+        f = judge_prio(case, all_lines[a:a + n], trace, out[a:a + n])
+        nobs += len(trace)
+        if f:
+            fails.append((case, f, trace))
+    return len(all_lines), fails, {"cases": len(cases), "observations": nobs, "flavours": sorted({c["flavour"] for c in cases})}
